@@ -10,6 +10,7 @@ import Driver.Spend
 import Driver.Pretend
 import Driver.Listing
 import Driver.Tf
+import Driver.Dual
 open Btcdeb
 namespace Driver
 
@@ -19,7 +20,7 @@ def extraCmds : List (String × (Bool → List String → String)) :=
     ("INSTTXDATA", cmdInstTxData), ("CALCSIGHASH", cmdCalcSighash), ("PRUN", cmdPrun),
     ("SPEND", fun spec a => if spec then cmdSpendSpec a else cmdSpendModel a),
     ("SPENDR", fun spec a => if spec then cmdSpendSpec a else cmdSpendModelR true a),
-    ("LISTING", cmdListing),
+    ("LISTING", cmdListing), ("DUAL", cmdDual),
     ("TF", cmdTf), ("INLINE", cmdInline) ]
 
 end Driver
